@@ -10,11 +10,13 @@ from harness.gen import sgdata as gen_sg
 from harness.gen.sgdata import dec
 
 ID = "C01"
-LEAN_TARGETS = ["ChmpyVerif.Props.C01"]
+LEAN_TARGETS = ["ChmpyVerif.Props.C01", "ChmpyVerif.Props.C01Shift"]
 T = "ChmpyVerif.Props.C01."
 THEOREMS = [T + n for n in (
     "uca_frac_in_unit_interval", "uca_complete", "uca_nodup", "uca_provenance", "uca_first_image", "uca_occupancy_merge",
     "uca_total_occupancy", "uca_identity_first", "images_length", "uca_all_settings")]
+# non-tabulated settings (origin moved by twelfths): the shifted operation maps the shifted site to the shifted image
+THEOREMS += [T + n for n in ("applyOp_shift", "wrap_add_int", "wrap_image_lattice_shift")]
 TRUSTED = [
     "hand model Model/UnitCellAtoms.lean of SpaceGroup.apply_all_symops + Crystal.unit_cell_atoms in exact rationals; merging by EQUAL wrapped "
     "positions stands for the KD-tree merge within 1e-2 (valid under the generator's separation margin, the property's own proviso)",
@@ -343,7 +345,7 @@ def judge(e, sites, seed):
         if not all(0 <= x < 1 for x in r["frac"]):
             return f"{tag}: fractional coordinate outside [0,1): {r['frac']}"
         want_cart = np.array(r["frac"]) @ np.asarray(c.unit_cell.direct)
-        if not np.allclose(want_cart, r["cart"], atol=1e-9):
+        if not np.allclose(want_cart, r["cart"], rtol=0, atol=1e-9):
             return f"{tag}: cart_pos inconsistent with frac_pos and the cell"
         z, occ, pos = sites[r["asym"]] if r["asym"] < len(sites) else (None, None, None)
         if z != r["elem"]:
